@@ -35,6 +35,11 @@ inductive RefinedOpStep : VM → VM → Prop
       ¬ (hd.pos ≥ cfg.elements.size ∨ hd.status = .inactive) → cfg.elements[hd.pos]! = .label "start_new_flow_instance" →
       NameRO f (hd.pos + 1) →
       slideStep fuel f h vm = .ok r vm' → RefinedOpStep vm vm'
+  | labelOther (fuel : Nat) (f : FUid) (h : HUid) (cfg : FlowCfg) (hd : Head) (name : String) (r : Bool × List Key) (vm vm' : VM) :
+      cfgOfInst f vm = .ok cfg vm → getHead? (f, h) vm = .ok (some hd) vm →
+      ¬ (hd.pos ≥ cfg.elements.size ∨ hd.status = .inactive) → cfg.elements[hd.pos]! = .label name →
+      name ≠ "start_new_flow_instance" → NameRO f (hd.pos + 1) →
+      slideStep fuel f h vm = .ok r vm' → RefinedOpStep vm vm'
   | beginScope (fuel : Nat) (f : FUid) (h : HUid) (cfg : FlowCfg) (hd : Head) (name : String) (r : Bool × List Key) (vm vm' : VM) :
       cfgOfInst f vm = .ok cfg vm → getHead? (f, h) vm = .ok (some hd) vm →
       ¬ (hd.pos ≥ cfg.elements.size ∨ hd.status = .inactive) → cfg.elements[hd.pos]! = .beginScope name →
@@ -103,6 +108,16 @@ theorem refinedOpStep_is_op (hν : Function.Injective ν) (hφ : Function.Inject
       obtain ⟨t, ht, ha, w'⟩ := corevm_label_is_op ν φ hν f h hd.pos vm vm1 hw hro hv
       cases hr
       exact ⟨w', [.label (ν f)], (by intro op hop; simp only [List.mem_singleton] at hop; subst hop; trivial), by simp only [List.foldl, applyOp, okOr_ok _ t _ ht]; exact ha⟩
+  | labelOther fuel f h cfg hd name r _ _ hcfg hhd hpos hel hname hro hr =>
+    rw [slideStep_label fuel f h vm cfg hd _ hcfg hhd hpos hel] at hr
+    simp only [bind, EStateM.bind] at hr
+    cases hv : vmLabel f h name hd.pos vm with
+    | error e s => rw [hv] at hr; cases hr
+    | ok u vm1 =>
+      rw [hv] at hr
+      obtain ⟨ha, w'⟩ := corevm_label_other_frame ν φ f h name hd.pos vm vm1 hw hname hro hv
+      cases hr
+      exact ⟨w', [], (by intro op hop; cases hop), by rw [ha]; rfl⟩
   | beginScope fuel f h cfg hd name r _ _ hcfg hhd hpos hel hro hr =>
     rw [slideStep_beginScope fuel f h vm cfg hd name hcfg hhd hpos hel] at hr
     simp only [bind, EStateM.bind] at hr
